@@ -415,6 +415,15 @@ example : C01.InDom exRaw.flatten.length (.slice (some 1) none) := by
 /-- a 0-d extra attribute makes the load fail (real code: IndexError) -/
 example : (match loadSpikeAttributes 3 [("spike_x.npy", ⟨[1], [.num 5]⟩)] with
     | .error (.scalarAttr f) => f | _ => "") = "spike_x.npy" := by decide
+/-- only the EXACT reserved names are the loader's own files (`n in SKIP_SPIKE_ATTRS`, model.py:527): a name that
+extends a reserved name (`times_sec`), is a proper prefix of one (`time`) or ends with one (`raw_samples`) is an
+attribute like any other; `spike_times_reordered.npy` and `spike_samples.npy` are not -/
+example : (match loadSpikeAttributes 2 [("spike_times_sec.npy", ⟨[2], [.num 1, .num 2]⟩),
+      ("spike_times_reordered.npy", ⟨[2], [.num 3, .num 4]⟩), ("spike_time.npy", ⟨[2, 1], [.num 5, .num 6]⟩),
+      ("spike_samples.npy", ⟨[2], [.num 7, .num 8]⟩), ("spike_raw_samples.npy", ⟨[2], [.num 9, .nan]⟩)] with
+    | .ok l => l.map (fun p => (p.1, p.2.data)) | _ => []) =
+    [("times_sec", [.num 1, .num 2]), ("time", [.num 5, .num 6]), ("raw_samples", [.num 9, .num 0])] := by decide
+example : "times_sec" ∉ skipSpikeAttrs ∧ "time" ∉ skipSpikeAttrs ∧ "times_reordered" ∈ skipSpikeAttrs := by decide
 
 example : transpose021 ⟨[1, 2, 3], [.num 0, .num 1, .num 2, .num 3, .num 4, .num 5]⟩ =
     ⟨[1, 3, 2], [.num 0, .num 3, .num 1, .num 4, .num 2, .num 5]⟩ := by decide
